@@ -468,7 +468,7 @@ def cmd_check(prop, tier, seed, runs_cap, budget, workers, det_k, write_evidence
         "wall_s": round(wall, 2),
         "violations": n_viol,
     }
-    if write_evidence:
+    if write_evidence and not os.environ.get("RLSIM_NO_EVIDENCE"):
         os.makedirs(os.path.join(VERIF_ROOT, "evidence"), exist_ok=True)
         with open(os.path.join(VERIF_ROOT, "evidence", f"{prop}.json"), "w") as f:
             json.dump(ev, f, indent=1, default=_json_default)
